@@ -163,6 +163,15 @@ def family_alias(rnd, tier):
                 for e in fs:
                     if e["p"] == [opt["hl"][0]]: e["hlof"] = [opt["hl"][1]]
             out.append(SC("alias-%s-backup-%s" % (name, mode), fs, srcs, dest, r=False, extra=["--backup", mode], cls="alias"))
+    # two sources mapping onto one destination name, one of them a link to the other: the destination becomes an alias of
+    # a source DURING the run (between another worker's identity test and its create)
+    big = E("BIG", "file", "BIGF"); big["meta"]["data"] = bytes(range(1, 251)) * 8000
+    race = [big, E("S1", "dir"), E("S1/x", "link", "/S2/x"), E("S2", "dir"), E("S2/x", "file", "F1"), E("D", "dir"), E("by", "file", "F6")]
+    sc = SC("alias-late-link", race, ["BIG", "S1/x", "S2/x"], "D", r=False, cls="alias"); sc["repeat"] = 10
+    out.append(sc)
+    sc = SC("alias-late-link-rel", [dict(e) for e in race], ["S1/x", "S2/x"], "D/", r=False, cls="alias"); sc["repeat"] = 6
+    sc["fs0"][2] = E("S1/x", "link", "../S2/x")
+    out.append(sc)
     # directories onto themselves
     d = tree("dd", {"x": "F1", "e": {"y": "F2"}, "p": ("fifo",), "l": ("link", "x")}) + [E("by", "file", "F6")]
     out.append(SC("alias-dir-parent", d, ["dd"], "dd/..", cls="alias"))
